@@ -421,7 +421,17 @@ func regCheck(c regCase, r *regResult) []verdict {
 	if set := regSeqOutcomes(c); set == nil {
 		vs = append(vs, verdict{"no-deadlock", "a sequential run of the operations did not finish", nil})
 	} else if !set[regOutcomeKey(rr.Results)] {
-		vs = append(vs, verdict{"sequential-consistency", "no sequential order of the operations returns " + fmt.Sprint(regTexts(rr.Results)), nil})
+		v := verdict{"sequential-consistency", "no sequential order of the operations returns " + fmt.Sprint(regTexts(rr.Results)), nil}
+		// known finding mapping-split: resolveResolvables takes the list of types and the list of mappings in two critical
+		// sections (context.go:181, :187); a px.NewGoObjectType declared in between has its mapping taken by this Do and its
+		// type by a later one.  The function of the declarer's Do then finds the type usable and the mapping missing
+		// ("ok-nomap"), which sequentially happens only when the other Do took the type as well.  Matched only if the run
+		// shows that state for a G item and, with exactly those states left open, the outcome is that of a sequential order.
+		if regMatchesModuloNomap(c, set, rr.Results) {
+			v.tags = []string{"mapping-split"}
+			v.what = "the mapping of a px.NewGoObjectType was taken by another goroutine's Do than its type (the lists of types and of mappings are taken in two critical sections): " + v.what
+		}
+		vs = append(vs, v)
 	}
 	// 3. afterwards: everything that was declared has been resolved, once
 	if !r.swept {
@@ -440,6 +450,76 @@ func regCheck(c regCase, r *regResult) []verdict {
 		}
 	}
 	return vs
+}
+
+// regMatchesModuloNomap: some Do of the run reports "ok-nomap" for a G item, and some sequential outcome agrees with the
+// run everywhere but at those states
+func regMatchesModuloNomap(c regCase, set map[string]bool, rs [][]opRes) bool {
+	// own[t][i]: the items that goroutine t has declared before its operation i
+	own := make([][][]string, len(c.Prog))
+	for t, ops := range c.Prog {
+		var mine []string
+		for _, o := range ops {
+			own[t] = append(own[t], append([]string(nil), mine...))
+			if o.Kind == "Decl" {
+				mine = append(mine, o.Item)
+			}
+		}
+	}
+	wild := false
+	for t, th := range rs {
+		for i, r := range th {
+			if r.Kind != "do" || r.Text == "" {
+				continue
+			}
+			for k, st := range strings.Split(r.Text, ",") {
+				if st == "ok-nomap" && k < len(own[t][i]) && own[t][i][k][0] == 'G' {
+					wild = true
+				}
+			}
+		}
+	}
+	if !wild {
+		return false
+	}
+	for key := range set {
+		ths := strings.Split(key, "|")
+		ok := len(ths) == len(rs)+1
+		for t := 0; ok && t < len(rs); t++ {
+			parts := strings.Split(ths[t], ";")
+			if len(parts) != len(rs[t])+1 {
+				ok = false
+				break
+			}
+			for i, r := range rs[t] {
+				if parts[i] == r.Kind+":"+r.Text {
+					continue
+				}
+				// a Do on both sides whose states differ only where the run has "ok-nomap" for a G item
+				if r.Kind != "do" || !strings.HasPrefix(parts[i], "do:") {
+					ok = false
+					break
+				}
+				a, b := strings.Split(r.Text, ","), strings.Split(strings.TrimPrefix(parts[i], "do:"), ",")
+				if len(a) != len(b) || len(a) != len(own[t][i]) {
+					ok = false
+					break
+				}
+				for k := range a {
+					if a[k] != b[k] && !(a[k] == "ok-nomap" && own[t][i][k][0] == 'G') {
+						ok = false
+					}
+				}
+				if !ok {
+					break
+				}
+			}
+		}
+		if ok {
+			return true
+		}
+	}
+	return false
 }
 
 // ---- the model tie -----------------------------------------------------------------------------------------------
@@ -528,6 +608,9 @@ func regCorpus() []regCase {
 		{Prog: rpr(rth(dc("P0"), do(), dc("P1"), do()), rth(dc("P2"), do()))},
 		{Prog: rpr(rth(dc("X0"), do()), rth(dc("T1"), do())), Note: "a declaration that cannot be resolved: the Do escapes, the other one must not wait for ever"},
 		{Prog: rpr(rth(dc("T0"), dc("X1"), do(), do()), rth(do(), dc("P2"), do()))},
+		// a type with a mapping declared while another goroutine's Do is between the list of types and the list of mappings
+		// (open finding mapping-split; the failing declaration in front of it pins down which Do took what)
+		{Prog: rpr(rth(do()), rth(dc("X0"), dc("G1"), do())), Note: "mapping taken by another Do than the type"},
 	}
 }
 
@@ -700,6 +783,16 @@ func replayReg(cfg *lib.Config, res *lib.Result, in interface{}) {
 	}
 	if len(vs) == 0 {
 		fmt.Println("the run satisfies the direct checks")
+	} else if set := regSeqOutcomes(c); set != nil {
+		keys := make([]string, 0, len(set))
+		for k := range set {
+			keys = append(keys, k)
+		}
+		sort.Strings(keys)
+		fmt.Printf("the %d sequential outcomes:\n", len(keys))
+		for _, k := range keys {
+			fmt.Println("  " + k)
+		}
 	}
 	res.Evaluations++
 	if r.rr.Hang == "" && !r.rr.Deadlock {
